@@ -252,8 +252,11 @@ impl RefHost {
                 vec![format!("{}|{}", h.signature, h.document.unwrap_or_default())]
             }
             InlayHint => {
+                // offset 0: the whole document; an even offset: [0, offset); an odd one: [offset, end)
                 let len = self.text_of(file).len() as u32;
-                let range = FileRange::new(file, TextRange::new(0.into(), len.into()));
+                let o = offset.min(len);
+                let (st, en) = if o == 0 { (0, len) } else if o % 2 == 0 { (0, o) } else { (o, len) };
+                let range = FileRange::new(file, TextRange::new(st.into(), en.into()));
                 a.inlay_hint(range)?
                     .into_iter()
                     .map(|h| if ranges { format!("{}|{}", self.lsp_pos(file, h.position), h.label) } else { h.label })
